@@ -22,7 +22,12 @@ vars == <<doc, phase, opts, len, steps, hist>>
 
 (* ---- parameter domains ------------------------------------------------------ *)
 Strs == IF Rich THEN {"@s1", "@s2", "@s3", "@s4", "@s5"} ELSE {"@s1", "@s2"}
-KeySyms == {"@k1", "@K1", "@k2"}
+\* @k3: a name next to the replaceNN boundary or a structural word of the entity block, as an ordinary keyvalue
+\* @k4: a name the format reads as a fixup (replace + two digits); its values @f1/@f2 have the fixup form "$var value"
+KeySyms == {"@k1", "@K1", "@k2", "@k3"}
+AmbKey == "@k4"
+AmbVals == {"@f1", "@f2"}
+FxOf(v) == [idx |-> 7, var |-> v \o "v", val |-> v \o "r", f |-> v \o "f"]
 FoldK(k) == IF k = "@K1" THEN "@k1" ELSE k
 VarSyms == {"@v1", "@V1", "@v2"}
 FoldV(v) == IF v = "@V1" THEN "@v1" ELSE v
@@ -105,8 +110,9 @@ Builder ==
     \/ \E b2 \in BOOLEAN : Len(doc.groups) < MaxGroups /\ \E z \in EntIdx \cap {0} : \E b1 \in BOOLEAN, c \in Colors :
             Do([op |-> "AddGroup", shown |-> b1, auto |-> b2, color |-> c])
     \/ \E c \in Classes : Len(doc.ents) < MaxEnts /\ Do([op |-> "AddEnt", cls |-> c])
-    \/ \E e \in EntIdx, k \in KeySyms, v \in Strs : Do([op |-> "SetKey", e |-> e, k |-> k, f |-> FoldK(k), v |-> v])
-    \/ \E e \in EntIdx, k \in KeySyms : FoldK(k) \in DOMAIN EntAt(doc, e).keys
+    \/ \E e \in EntIdx, k \in KeySyms, v \in Strs : Do([op |-> "SetKey", e |-> e, k |-> k, f |-> FoldK(k), v |-> v, fx |-> EmptyFn])
+    \/ \E e \in EntIdx, v \in AmbVals : Do([op |-> "SetKey", e |-> e, k |-> AmbKey, f |-> AmbKey, v |-> v, fx |-> FxOf(v)])
+    \/ \E e \in EntIdx, k \in KeySyms \cup {AmbKey} : FoldK(k) \in DOMAIN EntAt(doc, e).keys
             /\ Do([op |-> "DelKey", e |-> e, k |-> k, f |-> FoldK(k)])
     \/ \E e \in EntIdx, w \in VarSyms, v \in Strs :
             Do([op |-> "SetFixup", e |-> e, var |-> w, bare |-> w, f |-> FoldV(w), val |-> v])
@@ -173,7 +179,9 @@ O2 == [opts EXCEPT !.inc = FALSE]
 FixedPoint == LET x == Expected(opts, doc) IN Expected(O2, x) = x
 AgainStutters == [][phase = "done" => doc' = doc]_vars
 
-Card(e) == [keys |-> DOMAIN e.keys, kv |-> e.keys, fix |-> e.fix, outs |-> Len(e.outs), hidden |-> e.hidden,
+\* (a keyvalue the format reads as a fixup counts as the fixup it denotes)
+Card(e0) == LET e == MoveAmb(e0) IN
+           [keys |-> DOMAIN e.keys, kv |-> e.keys, fix |-> e.fix, outs |-> Len(e.outs), hidden |-> e.hidden,
             groups |-> e.groups, vis |-> e.vis, logical |-> e.logical, comments |-> e.comments,
             solids |-> MapSeq(LAMBDA s : [id |-> s.id, hidden |-> s.hidden, group |-> s.group, vis |-> s.vis,
                                          sides |-> MapSeq(LAMBDA f : [id |-> f.id, mat |-> f.mat, power |-> f.disp.power,
